@@ -137,6 +137,10 @@ static std::basic_string<C> random_payload(vf::Rng &r) {
         else if (k == 4) {
             static const char *e[] = {"&amp;", "&lt;", "&gt;", "&quot;", "&apos;", "&am", "&amp", "&lt", "&quo", "&apos", "&#39;", "&&", "&lt;&"};
             for (const char *p = e[r.below(13)]; *p; ++p) s += C(*p);
+        } else if (k == 5 && sizeof(C) > 1 && r.chance(1, 2)) {
+            // wide units whose low byte is a special character: not special themselves, must pass through unchanged
+            static const unsigned low[] = {0x26, 0x3C, 0x3E, 0x22, 0x27, 0x3B, 0x61, 0x00};
+            s += C((sizeof(C) == 4 && r.chance(1, 3) ? 0x10000u : 0u) + 0x100u * (1 + r.below(0x40)) + low[r.below(8)]);
         } else if (k == 5) s += C(sizeof(C) == 1 ? (0x80 + r.below(0x80)) : (sizeof(C) == 2 ? r.below(0x10000) : r.below(0x110000)));
         else s += C(0x20 + r.below(0x5F));
     }
@@ -255,6 +259,23 @@ static void render_paths(const std::basic_string<C> &p) {
             if (!between(out, seg) || seg != p) vf::fail("c03:svar-raw-subtag:not-verbatim", "payload=%s output=%s", vf::show(p.data(), p.size()).c_str(), vf::show(out.data(), out.size()).c_str());
         }
     }
+    // (c2) brace groups in the phrase that are not substitutions ({<} {&} {x} {7} with one sub-tag, lone braces): they are
+    //      phrase text and are escaped like the rest of it
+    if (p.find(C('{')) == S::npos && p.find(C('}')) == S::npos && p.size() < 120) {
+        static const char *groups[] = {"{<}", "{>}", "{&}", "{\"}", "{'}", "{x}", "{7}", "{", "}", "{}", "{<", "&}", "{1}{<}", "{&}{&}"};
+        uint64_t           h        = vf::fnv(p.data(), p.size() * sizeof(C));
+        S                  q;
+        size_t             a = p.empty() ? 0 : size_t(h % (p.size() + 1)), b = p.empty() ? 0 : size_t((h >> 16) % (p.size() + 1));
+        if (a > b) std::swap(a, b);
+        q = p.substr(0, a) + W<C>(groups[(h >> 32) % 14]) + p.substr(a, b - a) + W<C>(groups[(h >> 40) % 14]) + p.substr(b);
+        Value<C> v;
+        v[W<C>("ph").c_str()] = String<C>((const C *)q.data(), SizeT(q.size()));
+        v[W<C>("x").c_str()]  = W<C>("Z").c_str();
+        S out                 = render(one + W<C>("{svar:ph, {var:x}}") + two, v);
+        if (!between(out, seg)) vf::fail("c03:svar-phrase-braces:sentinels-lost", "phrase=%s", vf::show(q.data(), q.size()).c_str());
+        else check_escaped(q, seg, "svar-phrase-braces");
+        vf::count("svar_brace_phrases");
+    }
     // (d) echoed source of an unresolved {var:<payload>}: only payloads that cannot end the tag or index into a value
     {
         bool ok = !p.empty() && p.size() < 200;
@@ -313,6 +334,15 @@ int main(int argc, char **argv) {
                 std::basic_string<char16_t> p16(p.begin(), p.end());
                 std::basic_string<char32_t> p32(p.begin(), p.end());
                 std::basic_string<wchar_t>  pw(p.begin(), p.end());
+                if (i >= 6 && (i & 1)) {
+                    // wide renders: add units whose low byte is a special character (U+0126, U+013C, ...)
+                    static const unsigned low[] = {0x26, 0x3C, 0x3E, 0x22, 0x27, 0x3B};
+                    unsigned              u     = 0x100u * (1 + r.below(0x40)) + low[r.below(6)];
+                    size_t                at    = p.empty() ? 0 : r.below(uint32_t(p.size() + 1));
+                    p16.insert(p16.begin() + long(at), char16_t(u));
+                    p32.insert(p32.begin() + long(at), char32_t(u + (r.chance(1, 2) ? 0x10000u : 0u)));
+                    pw.insert(pw.begin() + long(at), wchar_t(u));
+                }
                 switch ((c + uint64_t(i)) % 3) {
                     case 0: render_paths(p16); break;
                     case 1: render_paths(p32); break;
